@@ -349,7 +349,18 @@ def run(ctx):
             nst += 1
             k = st["key"]
             formatted = (k[0] == "fmt" and N.is_const(k[1])) or (k[0] == "fstr" and any(N.is_const(x) for x in k[1]))       # "enum_%s" % id  /  f"enum_{id}"
-            ok = formatted and (N.contains(k, alloc) or N.contains(k, alloc_here) or (in_gen and N.contains(k, nid)))
+            via_method = False
+            if not formatted and not in_gen and k[0] == "call" and k[1][0] == "attr" and k[1][1] == ("param", "ksy") and k[1][2] in M.cls("KsyGen").methods:
+                # a naming method of the generator (ksy.allocateName("enum")): fresh if every path of that method returns a text formatted with a
+                # counter value it has just taken
+                gp = [p_ for p_ in own_method_paths(ctx, "KsyGen", k[1][2])[1] if p_.returns]
+                def fresh_(r_):
+                    fm_ = (r_[0] == "fmt" and N.is_const(r_[1])) or (r_[0] == "fstr" and any(N.is_const(x) for x in r_[1]))
+                    return fm_ and (N.contains(r_, ("selfcall", "allocateId", (), ())) or N.contains(r_, nid))
+                if gp and all(fresh_(p_.retval) for p_ in gp):
+                    formatted = True
+                    via_method = True
+            ok = formatted and (via_method or N.contains(k, alloc) or N.contains(k, alloc_here) or (in_gen and N.contains(k, nid)))
             ctx.ob("C19.R5", f, ok, "entries of the shared table ksy.%s are stored under a name built from a fresh ksy.allocateId() (an entry keyed any other way can overwrite an earlier one; got %s)" % (b[2], N.show(k)), key="ksy.%s key" % b[2])
             rets = [p for p in ps if p.returns and any(e.kind in ("STORE", "SELFWRITE") and e.node is st.node for e in p.events)]
             ctx.ob("C19.R5", f, bool(rets) and all(p.retval == k for p in rets), "the name returned is the name the entry was stored under", key="ksy.%s returned name" % b[2])
